@@ -1292,6 +1292,15 @@ Proof.
 Qed.
 End Cub.
 
+Lemma rndR_eq (r : R) : rndR r = round radix2 (FLT_exp (-1074) 53) ZnearestE r.
+Proof. reflexivity. Qed.
+Lemma Gg_eq (s : R) : Gg s = rndR (rndR (rndR (rndR (rndR (cAr * s) + cBr) * s) + cCr) * s).
+Proof. reflexivity. Qed.
+Lemma sp1_of_eq (x : f64) : sp1_of x = get_significand_plus_one (bits_of_f64 x).
+Proof. reflexivity. Qed.
+Lemma x_exp_eq (x : f64) : x_exp x = mag radix2 (BR x) - 1.
+Proof. reflexivity. Qed.
+
 (* the same value, written with the float constants A = cA, B = cB, C = cC of the model and with every
    definition of this file unfolded (so that Props/Glue.v can restate it verbatim) *)
 Lemma approx_log_cub_value (L : libm) (x : f64) : pos_normal x ->
@@ -1310,6 +1319,5 @@ Lemma approx_log_cub_value (L : libm) (x : f64) : pos_normal x ->
   (Rabs (BR (approx_log L MCub x)) <= 1026)%R.
 Proof.
   intros Hx. pose proof (approx_log_cub_R L x Hx) as H.
-  unfold Gg, Gd, Gc, Gb, Ga, rndR, sp1_of, x_exp in H.
-  rewrite <- cA_BR, <- cB_BR, <- cC_BR in H. exact H.
+  rewrite Gg_eq, <- cA_BR, <- cB_BR, <- cC_BR, !rndR_eq, sp1_of_eq, x_exp_eq in H. exact H.
 Qed.
